@@ -5,6 +5,8 @@ import Blue.Proofs.ManiAlgebra
 import Blue.Proofs.ManiTorn
 import Blue.Proofs.ManiApi
 import Blue.Proofs.ManiChain
+import Blue.Proofs.ManiReopen
+import Blue.Proofs.ManiOpenBytes
 import Blue.Proofs.ConstsTieC13
 /-! # Property C13 — manifest edits are atomic and durable; reopening replays exactly those applied
 
@@ -18,7 +20,19 @@ calls, two persistence models, the repaired `open` that finishes an interrupted 
 
 Granularity: the crash theorems are about whole system calls (an edit is one `write`); a cut at
 an arbitrary byte is `torn_manifest`, whose hypothesis `NoCollision` (no proper prefix of a written
-line carries that line's CRC) is a statement about CRC-32C that no theorem can discharge. -/
+line carries that line's CRC) is a statement about CRC-32C that no theorem can discharge.
+
+Two layers.  `crash_recover` / `mani_crash_recover` / the chain theorems are on EDIT LISTS: a file
+is the list of edits it holds and "reopen" is `replay` of that list by definition.  The layer below
+— the bytes — is `replay_roundtrip`, `torn_manifest` and, joining the two, `open_after_history` /
+`open_after_incarnations`: `Manifest::open` as the model has it (`openBytes`: `readEdits` on the
+file's bytes with fuel `|bytes| + 2`, then `replay`) on the bytes of the MANIFEST a crash leaves.
+`readEdits_fuel` makes the fuels of these theorems commensurable.  Incarnations: `incarnation_ok`,
+`incarnations_ok`, `chain_incarnations` close the crash and chain theorems under reopening (a
+crash during the reopen's rollover, edits after it, a second crash, …).  Not in any theorem: the
+rollover rule (`rollsOver`, `schedule`: WHEN `_apply` rolls over — the crash theorems hold for a
+rollover after any edit, so for every ratio) and reading the backup fragments from bytes
+(`Manifest::verify`; the chain theorems are on edit lists). -/
 namespace Blue.Props.C13
 open Blue.Mani Blue.ManiCrash
 
@@ -39,9 +53,12 @@ theorem replay_roundtrip (crc : List Nat → Nat) (hcrc : CrcOk crc) (es : List 
     readEdits crc (f + 1 + (es.map lineCount).sum) (es.flatMap (encodeEdit crc)) Edit.empty = (es, false) :=
   Blue.Mani.replay_roundtrip crc hcrc es f hok
 
-/-- `Edit.Ok` is exactly what the repaired `Edit::add` / `rm` / `info` enforce: every edit built
-    through the API satisfies it, every roll-up `rollover` writes satisfies it, and a string is
-    refused iff the reader could not hand it back -/
+/-- `Edit.Ok` is what the repaired `Edit::add` / `rm` / `info` enforce: every edit built through the
+    API satisfies it, every roll-up `rollover` writes satisfies it.  Third conjunct — a model fact,
+    for `addStr` only: the Boolean test `strOk` the model's `Edit::add` applies is the predicate
+    `StrOk` of the round-trip theorem (the same holds for `rmStr` / `setInfo` by their definitions;
+    that `StrOk` is NECESSARY for reading a string back is shown on instances only,
+    `as_is_unreadable_strings`) -/
 theorem api_enforces_hypothesis :
     (∀ e, Built e → e.Ok)
     ∧ (∀ es : List Edit, (∀ e ∈ es, e.Ok) → (maniAlgebra.rollup (replay maniAlgebra es)).Ok)
@@ -96,13 +113,118 @@ theorem chain_crash_free (h : List (Client Edit)) :
     chainOk (fragments (run emptyFs (opsOf maniAlgebra h []))) = true :=
   Blue.Mani.chain_crash_free h
 
-/-- **chain**, across a crash (D-13 repaired): whatever the crash point and persistence model, after
-    the reopen's rollover the fragments still chain -/
+/-- **chain**, across ONE crash (D-13 repaired) of a crash-free history from the empty directory:
+    whatever the crash point and persistence model, after the completed reopen's rollover the
+    fragments still chain (any number of crashes and reopens: `chain_incarnations`) -/
 theorem chain_after_crash_and_reopen (h : List (Client Edit)) (n : Nat) :
     let fs := run emptyFs ((opsOf maniAlgebra h []).take n)
     chainOk (fragments (run (crashA fs) (reopenOps maniAlgebra (crashA fs)))) = true
     ∧ chainOk (fragments (run (crashB fs) (reopenOps maniAlgebra (crashB fs)))) = true :=
   Blue.Mani.chain_after_crash_and_reopen h n
+
+/-! ## closure under reopening, and the theorems taken through the bytes -/
+
+/-- **fuel independence** of the reader: with more fuel than bytes the answer does not depend on
+    the fuel (so `openBytes`, `replay_roundtrip` and `torn_manifest` are about one function) -/
+theorem readEdits_fuel (crc : List Nat → Nat) (f f' : Nat) (bs : List Nat) (cur : Edit)
+    (h : bs.length < f) (h' : bs.length < f') : readEdits crc f bs cur = readEdits crc f' bs cur :=
+  Blue.Mani.readEdits_fuel crc f f' bs cur h h'
+
+/-- `Manifest::open` on the bytes of a file holding `es`: the state `es` replays to -/
+theorem open_reads_what_was_written (crc : List Nat → Nat) (hcrc : CrcOk crc) (es : List Edit) (hok : ∀ e ∈ es, e.Ok) :
+    openBytes crc (fileBytes crc es) = some (replay maniAlgebra es) :=
+  openBytes_fileBytes crc hcrc es hok
+
+/-- … cut at any byte: a corruption error, or the state after a prefix of whole edits -/
+theorem open_torn (crc : List Nat → Nat) (hcrc : CrcOk crc) (es : List Edit) (hok : ∀ e ∈ es, e.Ok)
+    (hnc : ∀ l ∈ linesOf es, l.NoCollision crc) (m : Nat) :
+    openBytes crc ((fileBytes crc es).take m) = none
+    ∨ ∃ c, openBytes crc ((fileBytes crc es).take m) = some (replay maniAlgebra (es.take c)) :=
+  Blue.Mani.open_torn crc hcrc es hok hnc m
+
+/-- **crash, through the bytes**: for every history of API-built edits and rollovers cut at any
+    system call, `Manifest::open` reading the BYTES of the MANIFEST the crash leaves (model (b):
+    the synced bytes; model (a): all bytes written) succeeds and yields the replay of a prefix of
+    the edits that contains every acknowledged one -/
+theorem open_after_history (crc : List Nat → Nat) (hcrc : CrcOk crc) (h : List (Client Edit))
+    (hok : ∀ e ∈ editsOf h, e.Ok) (n : Nat) :
+    let fs := run emptyFs ((opsOf maniAlgebra h []).take n)
+    openBytes crc (fileBytes crc (crashB fs).mani.durable) = some (recoverB maniAlgebra fs)
+    ∧ openBytes crc (fileBytes crc (crashA fs).mani.durable) = some (recoverA maniAlgebra fs)
+    ∧ (∃ k, acked ((opsOf maniAlgebra h []).take n) ≤ k ∧ k ≤ appended ((opsOf maniAlgebra h []).take n)
+        ∧ openBytes crc (fileBytes crc (crashB fs).mani.durable) = some (replay maniAlgebra ((editsOf h).take k)))
+    ∧ (∃ k, acked ((opsOf maniAlgebra h []).take n) ≤ k ∧ k ≤ appended ((opsOf maniAlgebra h []).take n)
+        ∧ openBytes crc (fileBytes crc (crashA fs).mani.durable) = some (replay maniAlgebra ((editsOf h).take k))) :=
+  Blue.Mani.open_after_history crc hcrc h hok n
+
+/-- the reopen's rollover on any crash image re-establishes the invariant `crash_recover` starts from -/
+theorem inv_after_reopen {St E : Type} (A : Algebra St E) (hlaw : Lawful A) (g : Fs E) (hp : g.mani.pending = []) :
+    Inv A (run g (reopenOps A g)) g.mani.durable :=
+  Blue.ManiCrash.inv_after_reopen A hlaw g hp
+
+/-- **a crash during the reopen**: every prefix of the rollover `Manifest::open` performs on a crash
+    image reopens, under both models, to the state the image reopens to -/
+theorem reopen_prefix_safe {St E : Type} (A : Algebra St E) (hlaw : Lawful A) (g : Fs E)
+    (hp : g.mani.pending = []) (m : Nat) :
+    recoverB A (run g ((reopenOps A g).take m)) = replay A g.mani.durable
+    ∧ recoverA A (run g ((reopenOps A g).take m)) = replay A g.mani.durable :=
+  Blue.ManiCrash.reopen_prefix_safe A hlaw g hp m
+
+/-- **one incarnation on any crash image** (`Manifest::open` with its rollover, any history, cut at
+    any system call of either, both models): a reopen yields the state the image reopened to
+    extended by a prefix of the incarnation's edits that contains every acknowledged one -/
+theorem incarnation_ok {St E : Type} (A : Algebra St E) (hlaw : Lawful A) (g : Fs E) (hp : g.mani.pending = [])
+    (h : List (Client E)) (n : Nat) :
+    Ok A (recoverB A (run g ((reopenOps A g ++ opsOf A h g.mani.durable).take n))) (g.mani.durable ++ editsOf h)
+      (g.mani.durable.length + acked ((reopenOps A g ++ opsOf A h g.mani.durable).take n))
+      (g.mani.durable.length + appended ((reopenOps A g ++ opsOf A h g.mani.durable).take n))
+    ∧ Ok A (recoverA A (run g ((reopenOps A g ++ opsOf A h g.mani.durable).take n))) (g.mani.durable ++ editsOf h)
+      (g.mani.durable.length + acked ((reopenOps A g ++ opsOf A h g.mani.durable).take n))
+      (g.mani.durable.length + appended ((reopenOps A g ++ opsOf A h g.mani.durable).take n)) :=
+  Blue.ManiCrash.incarnation_ok A hlaw g hp h n
+
+/-- **any number of incarnations and crashes**: each incarnation opens whatever its predecessor
+    left and extends the state by a prefix of its own edits, no shorter than those acknowledged
+    (`IncsOk`, spelled out by `incsOk_means`) -/
+theorem incarnations_ok {St E : Type} (A : Algebra St E) (hlaw : Lawful A) (is : List (Inc E)) (g : Fs E)
+    (hp : g.mani.pending = []) : IncsOk A g is ∧ (runIncs A g is).mani.pending = [] :=
+  Blue.ManiCrash.incarnations_ok A hlaw is g hp
+
+theorem incsOk_means {St E : Type} (A : Algebra St E) (g : Fs E) (i : Inc E) (is : List (Inc E)) :
+    IncsOk A g (i :: is) ↔
+      (∃ k, acked (incOps A g i) ≤ k ∧ k ≤ appended (incOps A g i)
+        ∧ replay A (nextFs A g i).mani.durable = ((editsOf i.h).take k).foldl A.apply (replay A g.mani.durable))
+      ∧ IncsOk A (nextFs A g i) is := Iff.rfl
+
+/-- the crash image of the FIRST incarnation of a directory (no MANIFEST yet: `Manifest::open`
+    does not roll over) is a directory the incarnation theorems start from -/
+theorem first_incarnation_image (h : List (Client Edit)) (hok : ∀ e ∈ editsOf h, e.Ok) (n : Nat) (b : Bool) :
+    (crash b (run emptyFs ((opsOf maniAlgebra h []).take n))).mani.pending = []
+    ∧ DirOk (crash b (run emptyFs ((opsOf maniAlgebra h []).take n)))
+    ∧ Cls (crash b (run emptyFs ((opsOf maniAlgebra h []).take n))) :=
+  ⟨crash_pending _ _, dirOk_first h hok n b, cls_first h n b⟩
+
+/-- … through the bytes: the MANIFEST left by any sequence of incarnations opens from its bytes -/
+theorem open_after_incarnations (crc : List Nat → Nat) (hcrc : CrcOk crc) (g0 : Fs Edit) (hp : g0.mani.pending = [])
+    (hd0 : DirOk g0) (is : List (Inc Edit)) (hok : ∀ i ∈ is, ∀ e ∈ editsOf i.h, e.Ok) :
+    let g := runIncs maniAlgebra g0 is
+    g.mani.pending = []
+    ∧ openBytes crc (fileBytes crc g.mani.durable) = some (replay maniAlgebra g.mani.durable)
+    ∧ IncsOk maniAlgebra g0 is :=
+  Blue.Mani.open_after_incarnations crc hcrc g0 hp hd0 is hok
+
+/-- **chain, any number of incarnations**: the directories a crash can leave (`Cls`: MANIFEST its
+    own file and the fragments chained, or still linked to the newest backup and chained up to it)
+    are closed under incarnations — open with the repaired rollover, any history, a crash at any
+    system call (of the rollover too), either model — and a completed reopen of any of them leaves
+    the fragments chained, also through the crash-free history that follows -/
+theorem chain_incarnations (g0 : Fs Edit) (h0 : Cls g0) (is : List (Inc Edit)) (h : List (Client Edit)) :
+    let g := runIncs maniAlgebra g0 is
+    Cls g
+    ∧ chainOk (fragments (run g (reopenOps maniAlgebra g))) = true
+    ∧ chainOk (fragments (run g (reopenOps maniAlgebra g ++ opsOf maniAlgebra h g.mani.durable))) = true :=
+  ⟨Blue.Mani.chain_incarnations is g0 h0, chain_after_incarnations g0 h0 is,
+   chain_after_incarnations_and_history g0 h0 is h⟩
 
 /-! ## the defects, as theorems about the code as it was -/
 
@@ -163,6 +285,38 @@ example : ∀ l ∈ linesOf [⟨[], [[97, 98, 99]], []⟩], l.NoCollision Blue.C
     rcases hq with rfl | rfl <;> decide +kernel
   · trivial
 
+/-- non-vacuity of the incarnation theorems: an edit, a crash inside the rollover that follows it
+    (after the link, model (b)), a reopen that is itself cut after ITS temporary is written (model
+    (a)), a third incarnation that completes the rollover and applies `e2`, cut before the sync
+    under model (b): the state is `[e1]`'s, the directory is of the class, and the reopen after it
+    chains with three backups -/
+example :
+    let g0 := crash true (run emptyFs ((opsOf maniAlgebra [.edit e1, .rollover] []).take 4))
+    let is : List (Inc Edit) := [⟨[], 2, false⟩, ⟨[.edit e2], 5, true⟩]
+    let g := runIncs maniAlgebra g0 is
+    g0.linked = true ∧ (nextFs maniAlgebra g0 ⟨[], 2, false⟩).linked = true
+    ∧ replay maniAlgebra g.mani.durable = replay maniAlgebra [e1]
+    ∧ (fragments (run g (reopenOps maniAlgebra g))).length = 3
+    ∧ chainOk (fragments (run g (reopenOps maniAlgebra g))) = true := by decide
+
+/-- … and with the cut one call later (after the sync of `e2`) the state holds both edits -/
+example :
+    let g0 := crash true (run emptyFs ((opsOf maniAlgebra [.edit e1, .rollover] []).take 4))
+    let g := runIncs maniAlgebra g0 [⟨[], 2, false⟩, ⟨[.edit e2], 6, true⟩]
+    replay maniAlgebra g.mani.durable = replay maniAlgebra [e1, e2] := by decide
+
+/-- non-vacuity of `open_after_history` / `open_torn`: the edits of the examples are `Ok`, and the
+    bytes of a two-edit MANIFEST under CRC-32C open to the replay; cut inside the second edit's
+    first line: an error; cut right after that line (the second edit has no separator yet): the
+    first edit alone -/
+example : e1.Ok ∧ e2.Ok := ⟨Built.ok (.add (s := [97]) .empty rfl), Built.ok (.add (s := [98]) .empty rfl)⟩
+example :
+    openBytes Blue.Crc32c.crc32c (fileBytes Blue.Crc32c.crc32c [e1, e2]) = some (replay maniAlgebra [e1, e2])
+    ∧ (fileBytes Blue.Crc32c.crc32c [e1, e2]).length = 40
+    ∧ openBytes Blue.Crc32c.crc32c ((fileBytes Blue.Crc32c.crc32c [e1, e2]).take 25) = none
+    ∧ openBytes Blue.Crc32c.crc32c ((fileBytes Blue.Crc32c.crc32c [e1, e2]).take 31) = some (replay maniAlgebra [e1]) := by
+  decide +kernel
+
 end Blue.Props.C13
 
 #print axioms Blue.Props.C13.constants_from_source
@@ -176,6 +330,18 @@ end Blue.Props.C13
 #print axioms Blue.Props.C13.mani_crash_recover
 #print axioms Blue.Props.C13.chain_crash_free
 #print axioms Blue.Props.C13.chain_after_crash_and_reopen
+#print axioms Blue.Props.C13.readEdits_fuel
+#print axioms Blue.Props.C13.open_reads_what_was_written
+#print axioms Blue.Props.C13.open_torn
+#print axioms Blue.Props.C13.open_after_history
+#print axioms Blue.Props.C13.inv_after_reopen
+#print axioms Blue.Props.C13.reopen_prefix_safe
+#print axioms Blue.Props.C13.incarnation_ok
+#print axioms Blue.Props.C13.incarnations_ok
+#print axioms Blue.Props.C13.incsOk_means
+#print axioms Blue.Props.C13.first_incarnation_image
+#print axioms Blue.Props.C13.open_after_incarnations
+#print axioms Blue.Props.C13.chain_incarnations
 #print axioms Blue.Props.C13.as_is_info_plus_minus_misread
 #print axioms Blue.Props.C13.as_is_unreadable_strings
 #print axioms Blue.Props.C13.repaired_api_refuses
